@@ -163,9 +163,9 @@ class Scheduler(object):
             return self.f["p_fail"]
         return self.K.choice([0.0, 0.0, 0.05, 0.15, 0.35], "pfail")
 
-    def outcome(self, task, visit, attempt, item, shape):
+    def outcome(self, task, visit, attempt, item, shape, rk=None):
         K = self.K
-        key = (task, visit, attempt, item)
+        key = (task, visit, attempt, item) if not rk else (task, visit, attempt, item, "route", rk)
         pf = self.p_fail()
         if item is not None:
             pf = pf / 2.0
@@ -198,7 +198,16 @@ class Scheduler(object):
     def outcome_for(self, a):
         x = a["x"]
         shape = (self.prog["tasks"].get(a["task"]) or {}).get("shape", "token")
-        return self.outcome(a["task"], x.visit, x.attempt, a["item"], shape)
+        return self.outcome(a["task"], x.visit, x.attempt, a["item"], shape, self.route_key(x))
+
+    def route_key(self, x):
+        """Outcomes differ between the routes of a split task (keyed by the order in which the
+        routes of that task were first offered, which the schedule decides) -- except where the
+        scenario must fix the outcome per task (C08)."""
+        if self.profile.get("outcome_per_task"):
+            return None
+        seen = sorted(self.world.ledger.routes_seen.get(x.task, ()))
+        return seen.index(x.route) if x.route in seen else 0
 
     def latency(self, task, visit, attempt, item):
         KS = self.KS
@@ -379,7 +388,18 @@ class Scheduler(object):
         if w.status in TERMINAL_WF and self.did_rerun < self.f.get("max_reruns", 1) and self.f.get("rerun", 0) > 0 \
                 and self.K.u("ops", "rerun", self.did_rerun) < self.f["rerun"]:
             self.did_rerun += 1
-            self.do(["rerun", None])
+            reqs = None
+            done = [x for x in w.ledger.execs if x.state == "done" and x.kind != "bogus"]
+            if done and self.K.u("ops", "rerun_explicit", self.did_rerun) < 0.5:
+                # explicit requests for up to three executed tasks (independent or not)
+                n = 1 + self.K.below(3, "ops", "rerun_n", self.did_rerun)
+                reqs, seen = [], set()
+                for j in range(n):
+                    x = done[self.K.below(len(done), "ops", "rerun_pick", self.did_rerun, j)]
+                    if (x.task, x.route) not in seen:
+                        seen.add((x.task, x.route))
+                        reqs.append([x.task, x.route, False])
+            self.do(["rerun", reqs])
             self.do(["dispatch"])
             return True
         return False
